@@ -18,6 +18,8 @@ import (
 	"testing/synctest"
 
 	"golang.org/x/net/http2"
+	"google.golang.org/grpc/mem"
+	"google.golang.org/grpc/metadata"
 	"google.golang.org/grpc/resolver"
 )
 
@@ -37,11 +39,22 @@ import (
 //
 //	[7]             like [1] but the caller is held between registering as a waiter and parking
 //	[8, k]          release the k-th held caller (start order, k mod n); [5,..] with held callers only releases them
+//	[2, v1, v2]     server sends ONE SETTINGS frame carrying MAX_CONCURRENT_STREAMS twice: v1 then v2
+//	[9, v]          server sends SETTINGS{MAX_HEADER_LIST_SIZE: v}, only while no NewStream call is pending
+//	[10]            like [1] with 3000 bytes of metadata (header list between 3001 and 4000 bytes; an
+//	                ordinary call's is between 101 and 1000 bytes; checked at the start of every case)
+//	[11, k]         the client closes the k-th open stream and, back to back (nothing else runs in
+//	                between: the driver goroutine does not block), cancels the contexts of all parked calls
+//	[12, k]         a sender goroutine on the k-th open stream writes 1 MB and then one more message to
+//	                the non-reading peer: the second Write blocks in writeQuota.get (at most one sender per stream)
 //
-// obs [streamQuota, waitingStreams, len(activeStreams), #NewStream calls not returned, #of them held,
+// obs [streamQuota, waitingStreams, #streams open on the wire (NewStream returned them, the server saw
 //
+//	their HEADERS, not ended), #NewStream calls not returned, #of them held,
 //	#calls that failed with a context error in this step, #calls that failed with
-//	drain/closing in this step, n, the n stream ids of HEADERS frames the server received in
+//	drain/closing in this step, #calls that failed the header-list-size check in this step,
+//	len(activeStreams), #sender goroutines blocked in Write, #of them whose stream has ended,
+//	n, the n stream ids of HEADERS frames the server received in
 //	this step in arrival order, the n ids of the streams NewStream returned in this step ascending]
 var vStreamQuotaT *testing.T
 
@@ -110,6 +123,29 @@ type vStreamQuotaCall struct {
 	s      *ClientStream
 	err    error
 	seen   bool
+}
+
+type vStreamQuotaWriter struct {
+	done bool
+	err  error
+}
+
+var vStreamQuotaPayload = make([]byte, 1<<20)
+
+func vStreamQuotaHdrSize(t *http2Client, ctx context.Context) int64 {
+	hf, err := t.createHeaderFields(ctx, &CallHdr{Host: "h", Method: "/s/m"})
+	if err != nil {
+		panic("vStreamQuota: createHeaderFields: " + err.Error())
+	}
+	var sz int64
+	for _, f := range hf {
+		sz += int64(f.Size())
+	}
+	return sz
+}
+
+func vStreamQuotaBigCtx(ctx context.Context) context.Context {
+	return metadata.NewOutgoingContext(ctx, metadata.Pairs("verif-pad", strings.Repeat("x", 3000)))
 }
 
 type vStreamQuotaSrv struct {
@@ -187,8 +223,35 @@ func vStreamQuotaRun(cfg []int64, ops [][]int64) (obs [][]int64, nt bool, tags [
 	}()
 	<-sv.prefOK
 	synctest.Wait()
+	if sz := vStreamQuotaHdrSize(t, ctx); sz <= 100 || sz > 1000 {
+		panic(fmt.Sprintf("vStreamQuota: ordinary header list size %d outside (100,1000]", sz))
+	}
+	if sz := vStreamQuotaHdrSize(t, vStreamQuotaBigCtx(ctx)); sz <= 3000 || sz > 4000 {
+		panic(fmt.Sprintf("vStreamQuota: big header list size %d outside (3000,4000]", sz))
+	}
 
 	open := map[uint32]*ClientStream{}
+	writers := map[uint32]*vStreamQuotaWriter{}
+	var wmu sync.Mutex
+	sortedOpen := func() []int {
+		ids := make([]int, 0, len(open))
+		for id := range open {
+			ids = append(ids, int(id))
+		}
+		sort.Ints(ids)
+		return ids
+	}
+	parkedCalls := func() []*vStreamQuotaCall {
+		var blocked []*vStreamQuotaCall
+		cmu.Lock()
+		for _, c := range calls {
+			if !c.done && !c.held() {
+				blocked = append(blocked, c)
+			}
+		}
+		cmu.Unlock()
+		return blocked
+	}
 	srvSeen := 0
 	tagset := map[string]bool{}
 	everBlocked := false
@@ -199,10 +262,13 @@ func vStreamQuotaRun(cfg []int64, ops [][]int64) (obs [][]int64, nt bool, tags [
 			continue
 		}
 		switch {
-		case (op[0] == 1 || op[0] == 7) && len(op) == 1:
+		case (op[0] == 1 || op[0] == 7 || op[0] == 10) && len(op) == 1:
 			cctx, cancel := context.WithCancel(ctx)
 			c := &vStreamQuotaCall{cancel: cancel}
 			var callCtx context.Context = cctx
+			if op[0] == 10 {
+				callCtx = vStreamQuotaBigCtx(cctx)
+			}
 			if op[0] == 7 {
 				c.gate = &vStreamQuotaGate{Context: cctx, inWindow: make(chan struct{}), release: make(chan struct{})}
 				callCtx = c.gate
@@ -218,6 +284,72 @@ func vStreamQuotaRun(cfg []int64, ops [][]int64) (obs [][]int64, nt bool, tags [
 			sv.wmu.Lock()
 			sv.fr.WriteSettings(http2.Setting{ID: http2.SettingMaxConcurrentStreams, Val: uint32(op[1])})
 			sv.wmu.Unlock()
+		case op[0] == 2 && len(op) == 3:
+			sv.wmu.Lock()
+			sv.fr.WriteSettings(http2.Setting{ID: http2.SettingMaxConcurrentStreams, Val: uint32(op[1])},
+				http2.Setting{ID: http2.SettingMaxConcurrentStreams, Val: uint32(op[2])})
+			sv.wmu.Unlock()
+		case op[0] == 9 && len(op) == 2:
+			pending := false
+			cmu.Lock()
+			for _, c := range calls {
+				if !c.done {
+					pending = true
+				}
+			}
+			cmu.Unlock()
+			if !pending {
+				sv.wmu.Lock()
+				sv.fr.WriteSettings(http2.Setting{ID: http2.SettingMaxHeaderListSize, Val: uint32(op[1])})
+				sv.wmu.Unlock()
+			}
+		case op[0] == 11 && len(op) == 2:
+			if len(open) == 0 {
+				break
+			}
+			ids := sortedOpen()
+			k := int(op[1] % int64(len(ids)))
+			if k < 0 {
+				k += len(ids)
+			}
+			id := uint32(ids[k])
+			blocked := parkedCalls()
+			// The close hands the wake-up token (if it posts one) directly to the parked call at
+			// the head of the channel's receive queue, whose select is thereby decided; the
+			// cancellations follow at once, before that call can have done anything else.
+			prev := runtime.GOMAXPROCS(1)
+			open[id].Close(errors.New("verif close"))
+			for _, c := range blocked {
+				c.cancel()
+			}
+			runtime.GOMAXPROCS(prev)
+			delete(open, id)
+		case op[0] == 12 && len(op) == 2:
+			if len(open) == 0 {
+				break
+			}
+			ids := sortedOpen()
+			k := int(op[1] % int64(len(ids)))
+			if k < 0 {
+				k += len(ids)
+			}
+			id := uint32(ids[k])
+			if writers[id] != nil {
+				break
+			}
+			w := &vStreamQuotaWriter{}
+			writers[id] = w
+			cs := open[id]
+			go func() {
+				hdr := []byte{0, 0, 0, 0, 0}
+				err := cs.Write(hdr, mem.BufferSlice{mem.SliceBuffer(vStreamQuotaPayload)}, &WriteOptions{})
+				if err == nil {
+					err = cs.Write(hdr, mem.BufferSlice{mem.SliceBuffer(vStreamQuotaPayload[:1])}, &WriteOptions{})
+				}
+				wmu.Lock()
+				w.done, w.err = true, err
+				wmu.Unlock()
+			}()
 		case op[0] == 3 && len(op) == 3:
 			if len(open) == 0 {
 				break
@@ -303,13 +435,14 @@ func vStreamQuotaRun(cfg []int64, ops [][]int64) (obs [][]int64, nt bool, tags [
 				sv.wmu.Unlock()
 			} else {
 				t.Close(errors.New("verif close transport"))
+				open = map[uint32]*ClientStream{}
 			}
 		default:
 			continue
 		}
 		synctest.Wait()
 
-		nBlocked, nHeld, nCtx, nTerm := 0, 0, 0, 0
+		nBlocked, nHeld, nCtx, nTerm, nHdr := 0, 0, 0, 0, 0
 		var newIDs []int64
 		cmu.Lock()
 		for _, c := range calls {
@@ -325,6 +458,8 @@ func vStreamQuotaRun(cfg []int64, ops [][]int64) (obs [][]int64, nt bool, tags [
 					var nse *NewStreamError
 					if errors.As(c.err, &nse) && (nse.Err == errStreamDrain || nse.Err == ErrConnClosing) {
 						nTerm++
+					} else if strings.Contains(c.err.Error(), "header list size to send violates") {
+						nHdr++
 					} else {
 						nCtx++
 					}
@@ -348,7 +483,21 @@ func vStreamQuotaRun(cfg []int64, ops [][]int64) (obs [][]int64, nt bool, tags [
 		t.mu.Lock()
 		nact = int64(len(t.activeStreams))
 		t.mu.Unlock()
-		o := []int64{quota, waiting, nact, int64(nBlocked), int64(nHeld), int64(nCtx), int64(nTerm), int64(len(srvNew))}
+		nW, nWEnded := 0, 0
+		wmu.Lock()
+		for id, w := range writers {
+			if w.done {
+				delete(writers, id)
+				continue
+			}
+			nW++
+			if open[id] == nil {
+				nWEnded++
+			}
+		}
+		wmu.Unlock()
+		o := []int64{quota, waiting, int64(len(open)), int64(nBlocked), int64(nHeld), int64(nCtx), int64(nTerm), int64(nHdr),
+			nact, int64(nW), int64(nWEnded), int64(len(srvNew))}
 		o = append(o, srvNew...)
 		o = append(o, newIDs...)
 		obs = append(obs, o)
@@ -360,12 +509,12 @@ func vStreamQuotaRun(cfg []int64, ops [][]int64) (obs [][]int64, nt bool, tags [
 			everBlocked = true
 			tagset["blocked"] = true
 		}
-		if everBlocked && len(newIDs) > 0 && op[0] != 1 {
+		if everBlocked && len(newIDs) > 0 && op[0] != 1 && op[0] != 7 && op[0] != 10 {
 			nt = true
 			switch op[0] {
 			case 2:
 				tagset["admitted-after-settings"] = true
-			case 3:
+			case 3, 11:
 				tagset["admitted-after-close"] = true
 			}
 		}
@@ -377,6 +526,18 @@ func vStreamQuotaRun(cfg []int64, ops [][]int64) (obs [][]int64, nt bool, tags [
 		}
 		if nTerm > 0 {
 			tagset["terminal-error"] = true
+		}
+		if nHdr > 0 {
+			tagset["header-list-rejected"] = true
+		}
+		if nW > 0 {
+			tagset["sender-blocked"] = true
+		}
+		if op[0] == 11 && nCtx > 0 {
+			tagset["close+cancel"] = true
+		}
+		if op[0] == 2 && len(op) == 3 {
+			tagset["duplicate-setting"] = true
 		}
 	}
 	for k := range tagset {
@@ -413,6 +574,22 @@ func vStreamQuotaGen(r *vRand, tier string, idx int) ([]int64, [][]int64) {
 		// token survives; the caller that takes it must hand it on for the last free slot
 		return []int64{2}, [][]int64{{1}, {1}, {7}, {7}, {3, 0, 1}, {3, 0, 1}, {8, 0}, {8, 0}, {1}, {3, 0, 0}}
 	}
+	switch idx {
+	case 1:
+		// limit reached, one call parked, one held; a stream is closed while the parked call's
+		// context is cancelled: the call that was handed the token must use it or pass it on,
+		// otherwise the held call later parks although quota is free
+		return []int64{2}, [][]int64{{1}, {1}, {1}, {7}, {11, 0}, {8, 0}, {1}, {3, 0, 0}, {1}, {1}, {11, 1}, {1}}
+	case 2:
+		// calls rejected for their header list size must not touch quota, ids or the waiter count
+		return []int64{1}, [][]int64{{9, 1024}, {10}, {10}, {1}, {1}, {10}, {3, 0, 1}, {9, 16}, {3, 0, 0}, {9, 16}, {1}, {7}, {9, 4096}, {10}}
+	case 3:
+		// one SETTINGS frame carrying the parameter twice: the last value is the limit
+		return []int64{5}, [][]int64{{1}, {2, 4, 1}, {1}, {1}, {3, 0, 0}, {3, 0, 0}, {2, 0, 3}, {1}, {2, 1, 0}, {3, 1, 1}, {3, 0, 1}, {3, 0, 1}, {2, 0, 1}}
+	case 4:
+		// senders blocked on write quota are released by RST_STREAM, client close, transport close
+		return []int64{3}, [][]int64{{1}, {1}, {12, 0}, {12, 1}, {12, 0}, {3, 0, 0}, {3, 0, 1}, {1}, {1}, {1}, {12, 2}, {11, 2}, {12, 0}, {12, 1}, {5, 1}}
+	}
 	m0 := r.PickI64(0, 1, 2, 3, 5)
 	if r.Chance(10) {
 		m0 = r.PickI64(-1, 100, math.MaxUint32)
@@ -420,10 +597,30 @@ func vStreamQuotaGen(r *vRand, tier string, idx int) ([]int64, [][]int64) {
 	n := 40 + r.Intn(50)
 	var ops [][]int64
 	limits := []int64{0, 0, 1, 1, 2, 2, 3, 4, 5, 8, math.MaxUint32, math.MaxInt32}
+	hlimit := func() int64 {
+		x := r.Intn(100)
+		switch {
+		case x < 50:
+			return r.PickI64(1000, 1024, 2048, 3000)
+		case x < 85:
+			return r.PickI64(4000, 4096, 16384, 1<<20, math.MaxUint32)
+		default:
+			return r.PickI64(0, 16, 100)
+		}
+	}
+	if r.Chance(40) {
+		ops = append(ops, []int64{9, r.PickI64(1000, 1024, 2048, 3000)})
+	}
 	burst := true
 	for i := 0; i < n; i++ {
 		if r.Chance(15) {
 			burst = !burst
+		}
+		if r.Chance(4) {
+			// fill up, park one call, hold one, close a stream while cancelling the parked call
+			ops = append(ops, []int64{1}, []int64{1}, []int64{7}, []int64{11, int64(r.Intn(4))}, []int64{8, 0})
+			i += 4
+			continue
 		}
 		pNew := 30
 		if burst {
@@ -432,19 +629,37 @@ func vStreamQuotaGen(r *vRand, tier string, idx int) ([]int64, [][]int64) {
 		x := r.Intn(100)
 		switch {
 		case x < pNew:
-			if r.Chance(25) {
+			switch y := r.Intn(100); {
+			case y < 22:
 				ops = append(ops, []int64{7})
-			} else {
+			case y < 32:
+				ops = append(ops, []int64{10})
+			default:
 				ops = append(ops, []int64{1})
 			}
 		case x < pNew+10:
-			ops = append(ops, []int64{2, limits[r.Intn(len(limits))]})
+			if r.Chance(25) {
+				ops = append(ops, []int64{2, limits[r.Intn(len(limits))], limits[r.Intn(len(limits))]})
+			} else {
+				ops = append(ops, []int64{2, limits[r.Intn(len(limits))]})
+			}
 		case x < 89:
-			ops = append(ops, []int64{3, int64(r.Intn(8)), int64(r.Intn(2))})
+			switch y := r.Intn(100); {
+			case y < 12:
+				ops = append(ops, []int64{11, int64(r.Intn(8))})
+			case y < 22:
+				ops = append(ops, []int64{12, int64(r.Intn(8))})
+			default:
+				ops = append(ops, []int64{3, int64(r.Intn(8)), int64(r.Intn(2))})
+			}
 		case x < 92:
 			ops = append(ops, []int64{4, int64(r.Intn(4))})
 		case x < 94:
-			ops = append(ops, []int64{6, int64(r.Intn(1000))})
+			if r.Chance(50) {
+				ops = append(ops, []int64{9, hlimit()})
+			} else {
+				ops = append(ops, []int64{6, int64(r.Intn(1000))})
+			}
 		case x < 99:
 			ops = append(ops, []int64{8, int64(r.Intn(3))})
 		default:
